@@ -144,8 +144,72 @@ def constrained_cases():
     return out
 
 
+def all_schema_objects(schema, out=None):
+    """the schema object and every component type object below it"""
+    out = [] if out is None else out
+    out.append(schema)
+    ct = getattr(schema, 'componentType', None)
+    if ct is None:
+        return out
+    if isinstance(ct, namedtype.NamedTypes):
+        for i in range(len(ct)):
+            all_schema_objects(ct[i].asn1Object, out)
+    else:
+        all_schema_objects(ct, out)
+    return out
+
+
+def apply_history(schema, hist):
+    """things a program may have done with the very objects of the schema before decoding with it; none of them may
+    change what the schema admits"""
+    from pyasn1.type import tag
+    if hist == 'keyword-clones':
+        for o in all_schema_objects(schema):
+            for kw in ({'subtypeSpec': constraint.ConstraintsIntersection()},
+                       {'subtypeSpec': constraint.ValueRangeConstraint(-10 ** 6, 10 ** 6)},
+                       {'subtypeSpec': constraint.ValueSizeConstraint(0, 10 ** 6)},
+                       {'tagSet': tag.initTagSet(tag.Tag(tag.tagClassPrivate, tag.tagFormatSimple, 77))},
+                       {'sizeSpec': constraint.ValueSizeConstraint(0, 10 ** 6)}):
+                try:
+                    o.clone(**kw)
+                except Exception:  # noqa
+                    pass
+    elif hist == 'encoded-bare-values-first':
+        # the value-plus-schema encoders clone the schema objects they are given (chunking re-tags them)
+        for o in all_schema_objects(schema):
+            for cdc in ('cer', 'ber', 'der'):
+                for pv in (b'x' * 1500, 5, [1, 2], [], True, '1' * 9000):
+                    try:
+                        if cdc == 'ber':
+                            codec.ENC[cdc].encode(pv, asn1Spec=o, maxChunkSize=7)
+                        else:
+                            codec.ENC[cdc].encode(pv, asn1Spec=o)
+                    except Exception:  # noqa
+                        pass
+
+
+def constrained_cases_ext():
+    from pyasn1.type import tag
+    out = constrained_cases()
+    blob = univ.OctetString().subtype(implicitTag=tag.Tag(tag.tagClassContext, tag.tagFormatSimple, 3),
+                                      subtypeSpec=constraint.ValueSizeConstraint(1, 2000))
+    out.append(('[3] IMPLICIT OCTET STRING (SIZE 1..2000)', blob, [('8303616263', True), ('8300', False), ('0403616263', False)]))
+    bits = univ.BitString().subtype(explicitTag=tag.Tag(tag.tagClassContext, tag.tagFormatSimple, 4),
+                                    subtypeSpec=constraint.ValueSizeConstraint(1, 20000))
+    out.append(('[4] EXPLICIT BIT STRING (SIZE 1..20000)', bits, [('a40403020780', True), ('a403030100', False), ('03020780', False)]))
+    return out
+
+
 def check_constrained(rep):
-    for name, schema, items in constrained_cases():
+    for hist in (None, 'keyword-clones', 'encoded-bare-values-first'):
+        _check_constrained(rep, hist)
+
+
+def _check_constrained(rep, hist):
+    for name, schema, items in constrained_cases_ext():
+        apply_history(schema, hist)
+        if hist:
+            name = '%s after %s' % (name, hist)
         for hx, admitted in items:
             data = bytes.fromhex(hx)
             for cdc in ('ber', 'cer', 'der'):
@@ -164,12 +228,24 @@ def check_constrained(rep):
                 if ok and not admitted:
                     rep.fail('constraint-not-enforced-on-decode', '%s decoder accepted %s for %s, which its constraints reject' % (cdc, hx, name),
                              {'kind': 'constrained', 'type': name, 'bytes': hx, 'codec': cdc})
+                if not ok and admitted:
+                    rep.fail('constraint-rejects-admitted-value', '%s decoder refused %s for %s, which its constraints admit' % (cdc, hx, name),
+                             {'kind': 'constrained', 'type': name, 'bytes': hx, 'codec': cdc})
                 if ok:
                     try:
-                        codec.ENC['ber'].encode(obj)
+                        again = codec.ENC['ber'].encode(obj)
                     except error.PyAsn1Error as e:
                         rep.fail('constrained-reencode-refused', 'encoder refuses the value the decoder accepted for %s: %s' % (name, e),
                                  {'kind': 'constrained', 'type': name, 'bytes': hx, 'codec': cdc})
+                        continue
+                    try:
+                        obj2, rest2 = codec.DEC['ber'].decode(again, asn1Spec=schema)
+                        same = (obj2 == obj) and rest2 == b''
+                    except Exception as e:  # noqa
+                        same = False
+                    if not same:
+                        rep.fail('constrained-reencode-not-a-fixpoint', 'decode(encode(result)) differs or fails for %s: %s -> %s' % (name, hx, again.hex()),
+                                 {'kind': 'constrained', 'type': name, 'bytes': hx, 'codec': cdc, 'reencoded': again.hex()})
 
 
 def run(rep, tier, seed):
